@@ -47,6 +47,8 @@ def run(ctx):
     chk.rule('B4', 'failures cannot propagate: the action returns void and does not branch on the output status', floor=1)
     chk.rule('B5', 'no transmit/open/connect call is retried in a loop inside an output (a sink that never becomes '
                    'ready would stall the exec)', floor=1)
+    chk.rule('B6', 'no unbounded recursion: every call-graph cycle reachable from the interposers is a listed recursion '
+                   'whose argument changes on every call, or is cut by a re-entrancy guard', floor=1)
     chk.explanation = (
         'Per-call-site discipline over everything reachable from execv/execve (registries expanded): flags of the '
         'socket/send calls are constant-folded; the blocking/signalling deny-list is checked on the resolved call '
@@ -188,3 +190,6 @@ def run(ctx):
                'queue; EINTR storms) the wrapper spins and the real exec is never reached' % render(c))
     chk.ob('B5', 'no-retry-loops-in-outputs', not looped, '', '', '%d I/O call(s) in loops' % len(looped),
            how='%d I/O calls in %d outputs are all outside CFG cycles' % (nio, len(outs)))
+    # ---- B6 ------------------------------------------------------------------------
+    from rules.recursion import recursion_rule
+    recursion_rule(ctx, prog, cg, reach, 'B6')
